@@ -1,6 +1,7 @@
 (* C08 - IDC-star estimands equal the conditional counterfactual probability. *)
-From Coq Require Import List Bool.
-From Y0 Require Import Base.ListSet Graph.MixedGraph Dsl.Syntax Dsl.Build Alg.Id Alg.Cg Alg.IdStar Proofs.CfP.
+From Coq Require Import List Bool Arith.
+From Y0 Require Import Base.ListSet Graph.MixedGraph Dsl.Syntax Dsl.Build Alg.Id Alg.Cg Alg.IdStar Proofs.CfP
+  Sem.Scm Sem.CfSem Proofs.CgSemP Proofs.CgSem5P Proofs.StarSemP.
 Import ListNotations.
 
 (* VIOLATED by the pinned implementation through C07 and through conditional() (known findings). Proved on the model: *)
@@ -9,4 +10,35 @@ Theorem C08_impossible_conditioning_event_is_rejected g topo fuel outcomes condi
   idc_star g topo (S fuel) outcomes conditions = [IdCrash ValueError].
 Proof. exact (idc_star_rejects_impossible_conditions g topo fuel outcomes conditions). Qed.
 
+(* a conditioning event that contradicts one of its own subscripts is rejected, and rightly so: it is true at no exogenous state of any
+   functional SCM over the graph (formal semantics Sem/Scm.v) *)
+Theorem C08_self_contradicting_conditions_are_rejected_and_impossible (g0 : mg nat) (D : Type) `{EqB D} (U : Type) (f : nat -> (nat -> D) -> U -> D)
+  (rho : nat * bool -> D) (order : list nat) fuel outcomes conditions u :
+  (forall n, rho (n, false) <> rho (n, true)) -> local g0 U f -> is_topo g0 order = true -> event_ok g0 conditions ->
+  conditions <> [] -> violates_axiom_of_effectiveness conditions = true ->
+  idc_star g0 order (S fuel) outcomes conditions = [IdCrash ValueError] /\ event_true U f rho order conditions u = false.
+Proof.
+  intros Hr Hl Ho He Hne Hv. split.
+  - apply idc_star_rejects_impossible_conditions. apply id_star_effectiveness_gives_zero; assumption.
+  - exact (effectiveness_violation_never g0 U f rho Hr Hl order Ho conditions u He Hv).
+Qed.
+
+(* 'rejects a conditioning event only when it is impossible' is FALSE of the code (known finding C08/rejects-possible-conditions):
+   A -> B, C -> A, A <-> B; conditions { B_{+a} = -b, A_{-b} = +a } are true in the model A := +a, B := -b, yet every run of IDC* raises ValueError *)
+Theorem C08_rejects_only_impossible_conditions_refuted :
+  exists (g0 : mg nat) (topo : list nat) (outcomes conditions : event) (f : nat -> (nat -> bool) -> unit -> bool) (rho : nat * bool -> bool),
+    local g0 unit f /\ is_topo g0 topo = true /\ (forall n, rho (n, false) <> rho (n, true)) /\
+    idc_star g0 topo 5 outcomes conditions <> [] /\ (forall r, In r (idc_star g0 topo 5 outcomes conditions) -> r = IdCrash ValueError) /\
+    event_true unit f rho topo conditions tt = true.
+Proof.
+  exists (MG [2; 0; 1] [(0, 1); (2, 0)] [(0, 1)]), [2; 0; 1], [(mkVar KCf 2 None [(1, true)], (2, true))],
+         [(mkVar KCf 1 None [(0, true)], (1, false)); (mkVar KCf 0 None [(1, false)], (0, true))],
+         (fun v _ _ => match v with 0 => true | _ => false end), (fun i => snd i).
+  split; [intros v x x' u _; reflexivity|]. split; [vm_compute; reflexivity|]. split; [intros n; cbn; discriminate|].
+  split; [vm_compute; discriminate|]. split; [|vm_compute; reflexivity].
+  vm_compute. intros r [<-|[<-|[]]]; reflexivity.
+Qed.
+
 Print Assumptions C08_impossible_conditioning_event_is_rejected.
+Print Assumptions C08_self_contradicting_conditions_are_rejected_and_impossible.
+Print Assumptions C08_rejects_only_impossible_conditions_refuted.
